@@ -46,9 +46,21 @@ type Scenario struct {
 	Op      string
 	Same    []string // same-handle operations before the restart
 	Follow  []string
+	// NoLink (v1, "C08.v1nl <limit|-> <len> …"): the storage has no hard links, the history copy of the operation
+	// under test runs under a file size limit of Limit bytes (Limit < 0: no limit); Len is the size of the key file
+	NoLink bool
+	Limit  int
+	Len    int
 }
 
 func (sc Scenario) Line() string {
+	if sc.NoLink {
+		limit := "-"
+		if sc.Limit >= 0 {
+			limit = strconv.Itoa(sc.Limit)
+		}
+		return fmt.Sprintf("C08.v1nl %s %d H %s O %s F %s", limit, sc.Len, strings.Join(sc.History, " "), sc.Op, strings.Join(sc.Follow, " "))
+	}
 	head := ""
 	switch sc.Format {
 	case c06.V1:
@@ -404,7 +416,7 @@ func RunScenario(sc Scenario) Result {
 		panic("harness: " + err.Error())
 	}
 	defer w.Close()
-	in := &Injector{root: w.Dir}
+	in := &Injector{root: w.Dir, NoLink: sc.NoLink, CopyLimited: sc.NoLink && sc.Limit >= 0, CopyLimit: uint64(max(sc.Limit, 0))}
 	w.WrapStorage = func(s fsv1.Storage) fsv1.Storage { return &faultStorage{s, in} }
 	w.WrapBackend = func(b backendapi.Backend) backendapi.Backend { return &faultBackend{b, in} }
 	if err := w.Open(); err != nil {
@@ -424,7 +436,12 @@ func RunScenario(sc Scenario) Result {
 	}
 	f := fmtName(sc.Format)
 	slots := slotsOf(append(append(append(append([]string{}, sc.History...), sc.Op), sc.Same...), sc.Follow...))
+	_, sysMode := sc.Mode.sysLimit()
 	fail := func(class, format string, a ...any) {
+		if sc.NoLink && in.SysFailed && res.Outcome == "err" && (class == "lost-keys:v1" || class == "half-written-key-visible:v1") {
+			// the rotation failed, as it must, but FileStorage.Copy left its partial destination in the history
+			class = "v1:partial-history-copy"
+		}
 		res.Findings = append(res.Findings, c06.Finding{Class: class, Desc: fmt.Sprintf(format, a...)})
 	}
 	j := &judge{sc: sc, op: op, fails: fail, newID: map[c06.Slot]string{}, gone: map[c06.Slot]map[int]bool{}}
@@ -439,6 +456,11 @@ func RunScenario(sc Scenario) Result {
 		preSame = takeSnap(r, slots, true)
 	}
 	preHalf := halfWritten(w, r, slots)
+	if sc.NoLink {
+		if fi, err := os.Stat(filepath.Join(w.Dir, c06.V1PrivName(op.Slot))); err == nil && int(fi.Size()) != sc.Len {
+			panic(fmt.Sprintf("harness: the key file of %v has %d bytes, the scenario line says %d", op.Slot, fi.Size(), sc.Len))
+		}
+	}
 	var preRing ringView
 	if op.Kind == "h" {
 		preRing = viewRing(w, op.Slot)
@@ -527,6 +549,19 @@ func RunScenario(sc Scenario) Result {
 	})
 	in.Disarm()
 	res.Calls = in.Calls
+	if sysMode {
+		if !in.SysFailed {
+			panic("harness: the file size limit of " + string(sc.Mode) + " did not make the Put fail (call " + in.FiredCall + ")")
+		}
+		// the statement itself, on what the failed write left: a Put that RETURNED an error must not leave the file
+		// it created – the exclusive create would refuse every later write of this ring, for ever
+		if left := leftoverV2(w); len(left) > 0 {
+			fail("put-error-leaves-file:v2", "%s: the write inside Put failed (file size limit), Put returned an error, but %v stays behind", j.where(), left)
+		}
+	}
+	if sc.NoLink && sc.Limit >= 0 && sc.Limit < sc.Len && op.Kind == "g" && pre.cur[op.Slot] != "err" && !in.Fired {
+		panic("harness: the rotation on a storage without hard links did not copy the previous key")
+	}
 	if sc.Format == c06.V1 && sc.Cache != -1 && sc.Mode == ModeErr && strings.HasPrefix(in.FiredCall, "ReadDir:") {
 		j.sameHandleLostClass = "v1:stale-history-cache-after-refresh-error"
 	}
@@ -575,6 +610,9 @@ func RunScenario(sc Scenario) Result {
 			return leftoverV1(w.Dir), "v1:leftover-temp-file"
 		}
 		left, class = leftoverV2(w), "v2:leftover-keyring-new"
+		if sysMode {
+			class = "put-error-leaves-file:v2" // no crash, no failing Rename: not the known finding
+		}
 		if len(left) == 0 {
 			// a ring file without a current key (crash/failure between ring creation and SetCurrent)
 			for _, s := range slots {
@@ -757,8 +795,26 @@ func takeResult() Result {
 	return r
 }
 
+// parseNoLink: "<limit|-> <len> H … O … F …"
+func parseNoLink(a []string) Scenario {
+	sc := parseScenario(c06.V2Mem, append([]string{"none", "0"}, a[2:]...))
+	sc.Format, sc.Cache, sc.NoLink, sc.Limit, sc.Len = c06.V1, -1, true, -1, core.Atoi(a[1])
+	if a[0] != "-" {
+		sc.Limit = core.Atoi(a[0])
+	}
+	return sc
+}
+
 func runLine(f c06.Format, a []string) string {
-	res := RunScenario(parseScenario(f, a))
+	return runScenarioLine(parseScenario(f, a))
+}
+
+func runScenarioLine(sc Scenario) string {
+	res := RunScenario(sc)
+	if p := os.Getenv(resultFileEnv); p != "" {
+		// a child process serving a batch of lines: hand the findings to the parent
+		appendResult(p, sc.Line(), res)
+	}
 	lastMu.Lock()
 	lastRes = res
 	lastMu.Unlock()
@@ -770,7 +826,7 @@ func runLine(f c06.Format, a []string) string {
 	if obs == "" {
 		obs = "-"
 	}
-	if len(parseScenario(f, a).Same) > 0 {
+	if len(sc.Same) > 0 {
 		same := strings.Join(res.SameObs, "|")
 		if same == "" {
 			same = "-"
@@ -784,5 +840,6 @@ func init() {
 	core.Register("C08.v1", func(a []string) string { return runLine(c06.V1, a) })
 	core.Register("C08.v2m", func(a []string) string { return runLine(c06.V2Mem, a) })
 	core.Register("C08.v2d", func(a []string) string { return runLine(c06.V2Dir, a) })
+	core.Register("C08.v1nl", func(a []string) string { return runScenarioLine(parseNoLink(a)) })
 	core.RegisterProp("C08", run)
 }
